@@ -7,25 +7,24 @@ CONSTANTS
   DECI <- c_DECI
   PRICE <- c_PRICE
   PDEC <- c_PDEC
-  REGISTERED = {"lst"}
+  REGISTERED = {"lst","nst"}
   PREC = 100
-  UNBOND = 1
+  UNBOND = 2
   HOLDOPS = {"o1"}
-  AMOUNTS = {1,2,3}
-  NONCES = {1,2}
+  AMOUNTS = {1,2,3,5}
+  NONCES = {1,2,3,4}
+  TXHS = {"t1","t2"}
+  MAXH = 8
+  MAXOPS = 18
+  FACTORS = {0,1,50,100}
+  POWERS = {1,3,100}
+  SLASHIDS = {"i1","i2"}
+  NSTDELTAS <- c_NSTDELTAS
+  GENBAL = 9
+  FAILBUDGET = 3
   FRESH = TRUE
   PREFUND = 0
   PREDEL = 0
   EVENTS = {"Deposit","Withdraw","Delegate","Undelegate","Associate","Dissociate","Slash","NstUpdate","ReleaseHold","EndBlock"}
-  FAILBUDGET = 99
-  TXHS = {"t1"}
-  MAXH = 3
-  MAXOPS = 7
-  FACTORS = {50}
-  POWERS = {1}
-  SLASHIDS = {"i1"}
-  NSTDELTAS = {}
-  GENBAL = 0
-VIEW View
-INVARIANTS InvConservation InvPublished InvEscrow InvNonNeg InvShareSum InvSelfShare InvListExact InvEmptyPool InvPendingSums
+INVARIANTS EmitAtDepth
 CHECK_DEADLOCK FALSE
